@@ -164,7 +164,7 @@ def run_shard(rec, tier, seed, shard, nshards):
             ok = True
             # the archive is named the way callers name files: an absolute path, a bare file name relative to the
             # working directory, a relative path with a directory, a pathlib.Path, a name with blanks
-            style = int(rng.integers(0, 5)) if kind != "very-large" else 0
+            style = int(rng.integers(0, 6)) if kind != "very-large" else 0
             cwd0 = os.getcwd()
             os.chdir(tmp)
             fn_abs = fn
@@ -181,6 +181,12 @@ def run_shard(rec, tier, seed, shard, nshards):
                 import pathlib
 
                 fn = pathlib.Path(tmp) / "s.h5"
+            elif style == 5:
+                import pathlib
+
+                # a Path with a directory part, relative to a working directory that is not that directory
+                os.makedirs(os.path.join(tmp, "run-%d" % (ci % 2)), exist_ok=True)
+                fn = pathlib.Path("run-%d" % (ci % 2)) / "screen.h5"
             rec.count("file_name_style_%d" % style)
             for cyc in range(n_cycles):
                 try:
@@ -192,7 +198,15 @@ def run_shard(rec, tier, seed, shard, nshards):
                     ok = False
                     break
                 try:
-                    cur = Screen.load_h5(fn)
+                    # the file is where its name says, whichever way the name is spelled: every second cycle reads it
+                    # back through the other spelling (str <-> Path, relative <-> absolute)
+                    fn_load = fn
+                    if cyc % 2 == 1 or n_cycles == 1:
+                        import pathlib
+
+                        fn_load = os.path.abspath(os.fspath(fn)) if isinstance(fn, pathlib.PurePath) else pathlib.Path(os.path.abspath(fn))
+                        rec.count("loads_through_the_other_spelling_of_the_path")
+                    cur = Screen.load_h5(fn_load)
                 except Exception as e:
                     key = "C02/zero-row-screen/load_h5-raises" if s.size == 0 else "C02/load/raises-on-own-file"
                     rec.count("oracle_evals")
